@@ -100,7 +100,9 @@ class Calls(object):
     def spec_ite(self, ev, node, st):
         c, a, b = self._args(ev, node, st)
         if a.t != b.t:
-            if isinstance(a.t, TNone) or isinstance(b.t, TNone) or isinstance(a.t, TOpt) or isinstance(b.t, TOpt):
+            if isinstance(a.t, TVal) or isinstance(b.t, TVal):
+                a, b = ev.coerce(a, TVal()), ev.coerce(b, TVal())
+            elif isinstance(a.t, TNone) or isinstance(b.t, TNone) or isinstance(a.t, TOpt) or isinstance(b.t, TOpt):
                 t = a.t if isinstance(a.t, TOpt) else (b.t if isinstance(b.t, TOpt) else TOpt(b.t if isinstance(a.t, TNone) else a.t))
                 a, b = ev.coerce(a, t), ev.coerce(b, t)
             elif isinstance(a.t, TVal) or isinstance(b.t, TVal):
@@ -198,6 +200,38 @@ class Calls(object):
     def spec_alloc(self, ev, node, st):
         (a,) = self._args(ev, node, st)
         return SV(z3.Select(ev.heap_arr(st, "$", "alloc"), a.e), TBool())
+
+    def spec_lp_has(self, ev, node, st):
+        v, k = self._args(ev, node, st)
+        return SV(self.fx.lib.longest_prefix()["has"](v.e, ev.coerce_key(k, TKey()).e), TBool())
+
+    def spec_lp_key(self, ev, node, st):
+        v, k = self._args(ev, node, st)
+        return SV(self.fx.lib.longest_prefix()["key"](v.e, ev.coerce_key(k, TKey()).e), TKey())
+
+    def spec_maplam(self, ev, node, st):
+        """maplam('k', expr) : ghost map comprehension  (z3 Lambda)"""
+        names = node.args[0].value.split()
+        saved = ev.bound
+        ev.bound = dict(ev.bound)
+        vs, ts = [], []
+        for nm in names:
+            t = self.fx.parse_type(self.fx.session.bound_type(self.fx.module, nm))
+            v = z3.Const("l!" + nm, t.sort(self.cx))
+            vs.append(v)
+            ts.append(t)
+            ev.bound[nm] = SV(v, t)
+        try:
+            b = ev.ev(node.args[1], st)
+        finally:
+            ev.bound = saved
+        if len(vs) != 1:
+            raise Outside("maplam with several variables")
+        # named comprehension: fresh array + pointwise definition (keeps lambdas out of patterns / array theory)
+        mt = TMap(ts[0], b.t)
+        arr = z3.FreshConst(mt.sort(self.cx), "mapc")
+        st.assume(z3.ForAll(vs, z3.Select(arr, vs[0]) == b.e, patterns=[z3.Select(arr, vs[0])]))
+        return SV(arr, mt)
 
     def spec_b2i(self, ev, node, st):
         (a,) = self._args(ev, node, st)
